@@ -97,6 +97,11 @@ CLAIMED = {
             'Programs from the links profile (add_fp incl. empty files, add_hard_link across all namespace pairs and from the boot catalog, rm_hard_link, rm_file via each namespace, add/rm_eltorito, reopen) are executed step by step; after every applied edit the image is mastered and decoded independently: file names per namespace must equal the reference model, all names of one content must point at sectors holding its bytes, distinct contents must not share sectors, nothing may overlap, and no sector may stay allocated once the last reference (name or El Torito entry) is gone.',
             'Documented looseness for zero-byte files is modelled as an interval. Per-step mastering is assumed not to disturb the object (C06).',
             'DESIGN.md section 3, C07'),
+    'C14': ('fault_enumeration',
+            'fault enumeration with property-based placement (Hypothesis): every row of a refusal catalogue (mutator x cause x stage) injected at generated points of generated histories; twin-run byte comparison',
+            'The refusal catalogue (vf/model.py BadCatalogue, 76 rows: bad/duplicate/over-long name or missing parent in the first, second or third namespace, wrong entry type, missing Rock Ridge name, foreign-namespace arguments, depth, invalid boot parameters with and without a boot info table, duplicate catalog names per namespace, hybrid parameters, wrong object state ...) is enumerated; each refused call is placed at a drawn point of a generated history. The image written right after the refused call must equal the one written right before it, the final image must equal that of the twin run without the refused calls, later edits must behave identically and no write may fail. Evidence lists hits per catalogue row.',
+            'A catalogue call that the library accepts is handed to C13 (counted). modify_file_in_place refusals are C17.',
+            'DESIGN.md section 3, C14 and appendix A'),
 }
 
 NOT_YET = 'check not built yet in this session (work in progress; see DESIGN.md section 9 for the order)'
